@@ -16,7 +16,7 @@ func init() {
 		Files: []string{"cor.go", "monadIO.go"},
 		Funcs: []string{"CorDef", "CorNew"},
 		Gen:   genC14,
-		Rule: "a target coroutine (generator shape fixed / echo / accumulate) performing exactly as many YieldRefs as the 1..8 callers issue YieldFrom requests (plus one for StartWithVal), callers are started coroutines or DoNotation effects, " +
+		Rule: "a target coroutine (generator shape fixed / echo / accumulate) performing exactly as many YieldRefs as the 1..8 callers issue YieldFrom requests (plus one for StartWithVal), callers are started coroutines, DoNotation effects or never-started coroutine objects used from an ordinary goroutine, " +
 			"optionally mixed with YieldFromIO over a MonadIO observed on a handler; oracles over the logs of both sides: every request taken exactly once, its caller gets the value yielded by the YieldRef that took it, " +
 			"per-caller order, StartWithVal value reaches the first YieldRef, DoNotation/YieldFromIO results, IsStarted/IsDone, nobody left blocked; non-trivial = >=2 callers with requests in flight at once; distinct = distinct context-switch signature" +
 			" Flavours: crowd of callers with a late start, delegating target, redundant Start/StartWithVal, YieldFromIO over sibling compositions and with preset SubscribeOn, YieldFromIO on a finished coroutine, epilogue with a second generator started with a value.",
@@ -102,7 +102,7 @@ func genC14(t *simrt.Tape, tier string) Scenario {
 	// the target is itself a caller: between two YieldRefs it asks a sub-generator (YieldFrom)
 	sc.Delegate = t.Bool(1, 4)
 	for i := 0; i < nc; i++ {
-		c := c14Caller{Kind: []string{"cor", "cor", "do"}[t.Choose(3)]}
+		c := c14Caller{Kind: []string{"cor", "cor", "do", "handle"}[t.Choose(4)]}
 		n := 1 + t.Choose(maxS)
 		for k := 0; k < n; k++ {
 			if t.Bool(1, 6) {
@@ -291,6 +291,11 @@ func (sc *c14Scenario) Run(s *simrt.Sim) {
 			var self *fpgo.CorDef[int]
 			self = fpgo.CorNewGenerics[int](func() { body(self) })
 			ths = append(ths, s.Go(name+"-starter", func() { self.Start() }))
+		} else if c.Kind == "handle" {
+			// a coroutine object used as a caller identity only: it has no effect, is never started, and an ordinary
+			// goroutine issues its requests
+			self := fpgo.CorNewGenerics[int](nil)
+			ths = append(ths, s.Go(name+"-handle", func() { body(self) }))
 		} else {
 			ths = append(ths, s.Go(name+"-do", func() {
 				var z fpgo.CorDef[int]
